@@ -90,10 +90,14 @@ def run(item, ctx, tier, seed):
                             f"nb_easy_pos={ep}, nb_easy_neg={en}, score_class={sc!r}, equal_class={ec!r})\n"
                             f"r = roc(s, fnr={fnr_in!r}, fpr={fpr_in!r}, thresholds={thr_in!r}, nb_points={nbp!r}, x_axis={ax!r})\n"
                             "print(r.thresholds, r.fnr, r.fpr)\n").replace("inf", "np.inf")
+                    kw_before = {k: v.copy() for k, v in kw.items()}
                     ok, r = guarded(ctx, "roc", case, lambda: roc(s, nb_points=nbp, x_axis=ax, **kw))
                     ctx.tick()
                     if not ok:
                         continue
+                    for k, v in kw.items():
+                        if not np.array_equal(v, kw_before[k], equal_nan=True):
+                            ctx.fail("supplied-arrays-unchanged", dict(case, argument=k), observed=v, expected=kw_before[k])
                     th = np.asarray(r.thresholds)
                     fnr, fpr = np.asarray(r.fnr, dtype=float), np.asarray(r.fpr, dtype=float)
                     if not (th.ndim == 1 and fnr.shape == th.shape and fpr.shape == th.shape):
